@@ -191,7 +191,7 @@ _INFIX = {
 }
 
 
-SHAPE_ONLY_OPS = {"np.ones_like", "np.zeros_like", "shape_struct", "np.shape", "np.ndim", "len", "np.empty_like"}
+SHAPE_ONLY_OPS = {"np.ones_like", "np.zeros_like", "shape_struct", "np.shape", "np.ndim", "len", "np.empty_like", "unravel_of", "np.zeros", "np.ones", "np.eye", "treedef_depth_one"}
 
 
 def value_atoms(x) -> set:
